@@ -11,6 +11,10 @@ E5 (completion by t_max): the engine clock is read after every iterate() of the 
 advanced the clock is a step and must have its record (so the step list the contract is evaluated on is complete, incl.
 the completing step); a run that ended beyond t_max must cover every requested time not beyond t_max; Gillespie runs of
 a system that stays active, ending by t_max, under all policies, with requests up to and equal to t_max.
+E6 (dict route): the same settings given as a dictionary (rdscript_from_dict: canonical keys, alias keys, quantities as
+strings with unit, and the rdscript_to_dict image of a script), t_max explicit and different from the last request.
+E7 (get_output peek): driven histories over {iterate, sample, get_output}: a look at the trajectory in mid-run; the final
+trajectory must still hold every record of the run, the peeked one the records made so far.
 E4 (tiny interval): on_interval with intervals far below the step (2^-31 .. 2^-40, 1e-9, "1 ns"): every step holds a
 new multiple of the interval, so every step (event) is the first one at or after a multiple and must be recorded.
 """
@@ -69,7 +73,35 @@ def mk_script(case, policy=None):
             r["kf"], r["kr"] = r["kf"] / f, r["kr"] / f
         for sp_ in sc["system"]["species"]:
             sp_["D"] = sp_["D"] / f
+    if "dictform" in case and policy is None:
+        return dict_script(case, sc)
     return models.build_script(sc)
+
+
+DICT_KEYS = {"canonical": ("time_step", "t_max", "sampling_policy", "sampling_interval", "rng_seed"),
+             "alias": ("dt", "tmax", "sampling policy", "sampling interval", "seed"),
+             "alias2": ("time step", "t_max", "sampling_policy", "sampling_interval", "rng seed"),
+             "strings": ("time_step", "t_max", "sampling_policy", "sampling_interval", "rng_seed")}
+
+
+def dict_script(case, sc):
+    """The script of the case given to the library as a dictionary (the run under test only; the per-iteration
+    step list comes from the directly constructed script)."""
+    from strengths.rdscript import rdscript_from_dict, rdscript_to_dict
+    from strengths.rdsystem import rdsystem_to_dict
+    direct = models.build_script(sc)
+    form = case["dictform"]
+    if form == "to_dict":
+        return rdscript_from_dict(rdscript_to_dict(direct))
+    k_dt, k_tmax, k_pol, k_iv, k_seed = DICT_KEYS[form]
+    q = (lambda v: "%r s" % float(v)) if form == "strings" else (lambda v: v)
+    d = {"system": rdsystem_to_dict(direct.system), "t_sample": list(sc["t_sample"]), k_dt: q(sc["time_step"]),
+         k_pol: sc["policy"], k_seed: sc["seed"], "init_state_processing": sc["isp"]}
+    if "t_max" in sc:
+        d[k_tmax] = q(sc["t_max"])
+    if "interval" in sc:
+        d[k_iv] = q(sc["interval"])
+    return rdscript_from_dict(d)
 
 
 def _mk_script_dict(case, policy=None):
@@ -99,14 +131,19 @@ def drive(engine, script, ops=None):
             if not r:
                 break
     else:
-        obs.append((eng.raw_time(engine), eng.raw_state(engine, n)))
+        obs.append((eng.raw_time(engine), eng.raw_state(engine, n), None))
         for op in ops:
+            peek = None
             if op == "I":
                 rets.append(bool(engine.iterate()))
+            elif op == "G":
+                g = engine.get_output()           # a look at the trajectory in mid-run
+                peek = models.traj_arrays(g) + (len(g.data.value),)
+                rets.append(None)
             else:
                 engine.sample()
                 rets.append(None)
-            obs.append((eng.raw_time(engine), eng.raw_state(engine, n)))
+            obs.append((eng.raw_time(engine), eng.raw_state(engine, n), peek))
     complete = engine.is_complete()
     out = engine.get_output()
     engine.finalize()
@@ -355,6 +392,24 @@ def check_case(case):
         extra = [k for k in idx if k not in allowed and k not in psteps]
         if extra:
             out.append(("C09:%s:unrequested-record" % tag, "ops %s: record(s) at step(s) %r neither requested by the policy nor by sample(); recorded %r" % (ops, extra, idx)))
+        for q, op in enumerate(ops):
+            if op != "G":
+                continue
+            pt, pd, pn = obs[q + 1][2]
+            if pn != len(pt) * nsp * ncell:
+                out.append(("C09:%s:peek-shape" % tag, "ops %s: get_output() after %s: %d data values for %d samples" % (ops, ops[:q], pn, len(pt))))
+                break
+            if pt != t[:len(pt)] or pd != d[:len(pt)]:
+                out.append(("C09:%s:peek-not-a-prefix-of-the-final-trajectory" % tag,
+                            "ops %s: get_output() after %s held records at %r, the final trajectory holds %r" % (ops, ops[:q], pt, t)))
+                break
+            # records made before the peek (explicit calls) must already be in it
+            before = set(psteps[:ops[:q].count("P")])
+            pidx = idx[:len(pt)]
+            if not before <= set(pidx):
+                out.append(("C09:%s:peek-lacks-earlier-explicit-record" % tag,
+                            "ops %s: get_output() after %s holds steps %r, sample() was called at steps %r" % (ops, ops[:q], pidx, sorted(before))))
+                break
         if case["policy"] == "no_sampling" and len(idx) > len(psteps):
             out.append(("C09:%s:more-records-than-calls" % tag, "ops %s: %d records for %d sample() calls" % (ops, len(idx), len(psteps))))
     return out
@@ -424,6 +479,55 @@ def gen_history(tier, engines, gtypes, sd):
                              "init": init, "route": route, "edits": ed}
                         c["policy"] = effective(c)["policy"]      # informative only: the oracle recomputes it
                         yield c
+
+
+def gen_dict(engines, gtypes, sd):
+    k = 0
+    for e in engines:
+        for g in gtypes:
+            for pol, lst, extra in (("on_t_sample", [0, 0.5, 1.0], {}), ("on_t_sample", [0.125, 0.5], {}), ("on_t_sample", [1.25], {}),
+                                    ("on_iteration", [0, 0.5], {}), ("on_interval", [0, 0.5], {"interval": 0.375}), ("no_sampling", [0, 0.5], {})):
+                for tm in TMAX:
+                    for form in ("canonical", "alias", "alias2", "strings", "to_dict"):
+                        k += 1
+                        c = {"sub": "dict", "policy": pol, "engine": e, "gtype": g, "t_sample": lst, "t_max": tm,
+                             "seed": sd(e, k), "exact": True, "dictform": form}
+                        c.update(extra)
+                        yield c
+
+
+def peek_histories(tier):
+    """every {I,P} history up to depth 3 (thorough: 4) with one get_output() inserted at every position (thorough: also a
+    second one at every later position), + longer ones."""
+    depth = 3 if tier == "quick" else 4
+    out = []
+    for n in range(1, depth + 1):
+        for ops in itertools.product("IP", repeat=n):
+            ops = "".join(ops)
+            for a in range(n + 1):
+                h = ops[:a] + "G" + ops[a:]
+                out.append(h)
+                if tier != "quick":
+                    for b in range(a + 1, n + 1):
+                        out.append(h[:b + 1] + "G" + h[b + 1:])
+    for h in ("IGIIP", "PGIPGIIP", "IIGIII", "GIIIG", "PIGPIGPI"):
+        if h not in out:
+            out.append(h)
+    return out
+
+
+def gen_peek(tier, engines, gtypes, sd):
+    k = 0
+    hist = peek_histories(tier)
+    for g in gtypes:
+        for e in engines:
+            for pol, extra in (("no_sampling", {}), ("on_t_sample", {}), ("on_iteration", {}), ("on_interval", {"interval": 0.375})):
+                for ops in hist:
+                    k += 1
+                    c = {"sub": "peek", "policy": pol, "engine": e, "gtype": g, "t_sample": [0.125, 0.5],
+                         "t_max": 0.6, "seed": sd(e, k), "exact": True, "ops": ops}
+                    c.update(extra)
+                    yield c
 
 
 def gen_gillespie_tmax(tier, gtypes, seed0):
@@ -525,6 +629,12 @@ def gen_cases(tier, seed0):
     # script-object history: copy() / deepcopy / trajectory.script, then the public setters, then the run
     for c in gen_history(tier, engines, gtypes, sd):
         yield c
+    # the settings given as a dictionary (rdscript_from_dict), t_max explicit and different from the last request
+    for c in gen_dict(engines, gtypes, sd):
+        yield c
+    # get_output() peeks inside the driven histories
+    for c in gen_peek(tier, engines, gtypes, sd):
+        yield c
     # Gillespie runs of a system that stays active, ending by t_max, all policies, requests up to and equal to t_max
     for c in gen_gillespie_tmax(tier, gtypes, seed0):
         yield c
@@ -603,6 +713,7 @@ def run(ctx):
         per_sub[c["sub"]] = per_sub.get(c["sub"], 0) + 1
     n_tiny, n_hist = per_sub.get("interval-tiny", 0), per_sub.get("history", 0)
     n_gt, n_ex = per_sub.get("gillespie-tmax", 0), per_sub.get("explicit", 0)
+    n_di, n_pk = per_sub.get("dict", 0), per_sub.get("peek", 0)
     all_done = done == len(_CASES)
     ctx.subspace("tiny interval: on_interval with interval in {2^-31, 2^-33, 2^-40, 1e-9, '1 ns'} x dt {0.5, 0.25} x t_max {4, 2.7} "
                  "x 3 engines x {grid,graph}: t/interval crosses 2^31 during the run, every step / event holds a new multiple",
@@ -618,12 +729,19 @@ def run(ctx):
                  n_gt, n_gt if all_done else 0, exhaustive=all_done)
     ctx.subspace("explicit sample() calls: all {iterate,sample} histories to depth %d + %d longer ones x 4 policies x 3 engines x "
                  "{grid,graph}" % (5 if ctx.tier == "quick" else 6, len(EXPLICIT_LONG)), n_ex, n_ex if all_done else 0, exhaustive=all_done)
+    ctx.subspace("dict route: script given to rdscript_from_dict as {canonical keys, 2 alias key sets, quantities as 'v s' strings, "
+                 "rdscript_to_dict image} x 6 (policy, request list) x 6 t_max values (default, before / between / after the requests) "
+                 "x 3 engines x {grid,graph}", n_di, n_di if all_done else 0, exhaustive=all_done)
+    ctx.subspace("get_output() peeks: %d histories over {iterate, sample, get_output} (every {I,P} history to depth %d with a peek at "
+                 "every position%s, + 5 longer) x 4 policies x 3 engines x {grid,graph}"
+                 % (len(peek_histories(ctx.tier)), 3 if ctx.tier == "quick" else 4, "" if ctx.tier == "quick" else " and a second one at every later position"),
+                 n_pk, n_pk if all_done else 0, exhaustive=all_done)
     nl = len(_lists(3 if ctx.tier == "quick" else 4, LATTICE, 0))
     ctx.subspace("all %d non-decreasing request lists (length 0..%d) over the lattice {0,1/8,..,5/4} x 6 t_max values x 3 engines "
                  "x {grid,graph}; 5 intervals x 5 t_max; on_iteration / no_sampling; explicit quantities in ms/min/h; dt=0.1 "
                  "near-tie pass"
                  % (nl, 3 if ctx.tier == "quick" else 4),
-                 len(_CASES) - n_tiny - n_hist - n_gt - n_ex, (len(_CASES) - n_tiny - n_hist - n_gt - n_ex) if all_done else 0,
+                 len(_CASES) - n_tiny - n_hist - n_gt - n_ex - n_di - n_pk, (len(_CASES) - n_tiny - n_hist - n_gt - n_ex - n_di - n_pk) if all_done else 0,
                  exhaustive=all_done)
     ctx.rule("one case per (engine, space type, policy, request list / interval / op history, t_max, seed); non-trivial = "
              "at least one request or an explicit-call history; every recorded sample is mapped onto the step sequence of "
